@@ -83,6 +83,10 @@ func execOp(line string) (res string) {
 	if len(toks) == 0 {
 		return "bad-op"
 	}
+	tapeFailSalt = 0
+	for i := 0; i < len(line); i++ {
+		tapeFailSalt = tapeFailSalt*31 + uint32(line[i])
+	}
 	op, a := toks[0], toks[1:]
 	argc := func(n int) bool { return len(a) == n }
 	B := func(i int) []byte {
@@ -246,6 +250,28 @@ func execOp(line string) (res string) {
 			return "err" + ic
 		}
 		return "ok " + ptStr(k.X, k.Y) + ic
+	case "parsepub.seq":
+		// several encodings parsed back to back in one process (a point and its negation, the same point in another
+		// format); each result is edited by the caller as soon as it has been read
+		if !argc(1) {
+			return bad
+		}
+		out := "ok"
+		for _, h := range strings.Split(a[0], ",") {
+			b, ok := unhex(h)
+			if !ok {
+				return bad
+			}
+			k, err := bec.ParsePubKey(b, curve)
+			if err != nil {
+				out += " err"
+				continue
+			}
+			out += " " + nhx(k.X) + ":" + nhx(k.Y)
+			k.X.SetInt64(0x5a5a5a)
+			k.Y.SetInt64(0x5a5a5a)
+		}
+		return out
 	case "serpub":
 		if !argc(2) {
 			return bad
